@@ -77,7 +77,10 @@ ApplyParse(m, o, e, obj, step) ==
   LET f1 == ExcClass(TRUE, e, "parse.exc", step)
       phi0 == PhiOf(obj)
       impl == IF IsWritten(obj) /\ obj.implAst.op # "none" THEN NormAst(obj.implAst, obj.units) ELSE obj.implAst
-      f2 == IF f1 = Ok /\ obj.implKnown /\ impl # phi0 THEN F("parse.ast", step, phi0, impl) ELSE Ok IN
+      \* the AST the parser built must *mean* the specification: a tree that differs from the expected one but denotes the same
+      \* signal transformer on all short traces (constants folded, nodes shared or re-associated) is no defect
+      f2 == IF f1 = Ok /\ obj.implKnown /\ impl # phi0 /\ ~SemEq(Desugar(impl), phi0, m.cfg.S, m.cfg.M)
+            THEN F("parse.ast", step, phi0, impl) ELSE Ok IN
   \* (after a parse() that failed although it must succeed the object is not examined any further: the failure is recorded)
   IF f1 # Ok THEN R(m, [o EXCEPT !.dead = TRUE], f1, 0) ELSE
   R(ParseF(m, phi0), o, f1 \o f2, 0)
